@@ -19,8 +19,39 @@ def splitter(n):
     return flowsym.Stateful.builder('split', szout=2 * n)
 
 
+class _CV:
+    """Cross-validator handing out exactly the given (train, test) index pairs."""
+
+    def __init__(self, pairs):
+        self.pairs = pairs
+
+    def split(self, features, labels=None, groups=None):
+        return [(list(a), list(b)) for a, b in self.pairs]
+
+    def get_n_splits(self, features=None, labels=None, groups=None):
+        return len(self.pairs)
+
+
+def cvfolds(case):
+    import pandas
+
+    from forml.pipeline import payload
+
+    frame = pandas.DataFrame({'r': list(range(case['rows'])), 'v': [10 * i for i in range(case['rows'])]}, index=case.get('index'))
+    labels = pandas.Series([100 + i for i in range(case['rows'])], index=case.get('index'))
+    actor = payload.PandasCVFolds(crossvalidator=_CV(case['pairs']))
+    actor.train(frame, labels)
+    twin = payload.PandasCVFolds(crossvalidator=_CV([]))
+    twin.set_state(actor.get_state())  # the forks applied to features and to labels share the trained state
+    fparts = [list(map(int, p['r'])) for p in actor.apply(frame)]
+    lparts = [[int(v) - 100 for v in p] for p in twin.apply(labels)]
+    return {'features': fparts, 'labels': lparts}
+
+
 def observe(case):
     try:
+        if case['t'] == 'cvfolds':
+            return cvfolds(case)
         if case['t'] == 'eval':
             n = case['folds']
             method = evaluation.HoldOut(splitter=splitter(2)) if case.get('holdout') else evaluation.CrossVal(splitter=splitter(n), nsplits=n)
